@@ -43,13 +43,8 @@ _WHAT2 = ("serial walker: with same_file_system set, an ignored/filtered directo
           "walkdir's skip_current_dir() although walkdir never entered it, which pops the PARENT directory: the remaining "
           "entries of the parent are not reported; the parallel walker reports them")
 _WHAT3 = "serial walker: both of the above in one walk"
+# findings are recorded in /verif/known_findings.jsonl (status known / fixed); nothing is pending here
 PENDING_FINDINGS = []
-for _extra, _missing, _what in (("kf_model", "none", _WHAT1), ("none", "unpushed_skip_model", _WHAT2),
-                                ("kf_model", "unpushed_skip_model", _WHAT3)):
-    PENDING_FINDINGS.append({"match": {"clause": ["vs_expected", "loop"], "threads": 0, "serial_extra": _extra,
-                                       "serial_missing": _missing}, "what": _what})
-    PENDING_FINDINGS.append({"match": {"clause": "serial_vs_parallel", "parallel_as_expected": True,
-                                       "serial_extra": _extra, "serial_missing": _missing}, "what": _what})
 
 OPT_NAMES = [("md", "max_depth"), ("fs", "max_filesize"), ("fl", "follow_links"), ("sfs", "same_file_system"),
              ("filt", "filter"), ("ignd", "ignore")]
